@@ -239,3 +239,40 @@ impl<T> Context<T> for Result<T, AnyhowError> {
 /// std::process::ExitCode
 #[derive(PartialEq, Eq)] pub struct ExitCode { pub code: u8 }
 impl ExitCode { pub const SUCCESS: ExitCode = ExitCode { code: 0 }; pub const FAILURE: ExitCode = ExitCode { code: 1 }; }
+
+
+// ---- sha2 + std::io::BufReader, for the two checksum helpers (now extracted, not assumed) -----------------
+pub mod sha2 { use super::*;
+    /// a running SHA-256: `absorbed` is everything fed to it so far
+    pub struct Sha256 { pub absorbed: Ghost<Seq<u8>> }
+    pub struct Digest { pub of: Ghost<Seq<u8>> }
+    impl Sha256 {
+        #[verifier::external_body] pub fn new() -> (r: Self) ensures r.absorbed@ == Seq::<u8>::empty() { unimplemented!() }
+        #[verifier::external_body] pub fn update(&mut self, data: &[u8]) ensures final(self).absorbed@ == old(self).absorbed@ + data@ { unimplemented!() }
+        #[verifier::external_body] pub fn finalize(self) -> (r: Digest) ensures r.of@ == self.absorbed@ { unimplemented!() }
+    }
+}
+/// `format!("{result:x}")` of a digest: its lower-case hex string
+#[verifier::external_body] pub fn digest_hex(d: &sha2::Digest) -> (r: String) ensures r@ == sha256_hex(d.of@) { unimplemented!() }
+/// std::io::BufReader<fs_err::File> read sequentially: `pos` bytes consumed so far
+pub struct BufReader { pub id: Ghost<int>, pub pos: Ghost<int> }
+impl BufReader {
+    #[verifier::external_body]
+    pub fn new(file: File) -> (r: Self) ensures r.id@ == file.id@, r.pos@ == 0 { unimplemented!() }
+    /// std::io::Read::read: copies the next n <= buf.len() bytes; Ok(0) on a non-empty buffer means end of file.
+    /// ASSUMED: no transient I/O failure while reading a file that was just opened.
+    #[verifier::external_body]
+    pub fn read(&mut self, buf: &mut [u8; 8192]) -> (r: Result<usize, IoError>)
+        requires 0 <= old(self).pos@ <= fs_content(old(self).id@).len(),
+        ensures
+            final(self).id@ == old(self).id@,
+            r matches Ok(n) && n <= 8192
+              && final(self).pos@ == old(self).pos@ + n
+              && final(self).pos@ <= fs_content(old(self).id@).len()
+              && final(buf)@.subrange(0, n as int) == fs_content(old(self).id@).subrange(old(self).pos@, old(self).pos@ + n)
+              && ((n == 0) == (old(self).pos@ == fs_content(old(self).id@).len())),
+    { unimplemented!() }
+}
+/// `&buffer[..n]`
+#[verifier::external_body]
+pub fn prefix_of(buf: &[u8; 8192], n: usize) -> (r: &[u8]) requires n <= 8192 ensures r@ == buf@.subrange(0, n as int) { unimplemented!() }
